@@ -967,6 +967,40 @@ func check() int {
 		}
 	}
 	sort.Strings(order)
+	// one root cause often shows under several class signatures; report the first maxReported in full
+	const maxReported = 6
+	omitted := 0
+	if len(order) > maxReported {
+		omitted = len(order) - maxReported
+		var keep []string
+		for _, c := range order { // known findings and crashes are never dropped from the report
+			if matchKnown(known, c) != nil {
+				keep = append(keep, c)
+			}
+		}
+		for _, c := range order {
+			if len(keep) >= maxReported {
+				break
+			}
+			if matchKnown(known, c) == nil {
+				keep = append(keep, c)
+			}
+		}
+		omittedList := []string{}
+		in := map[string]bool{}
+		for _, c := range keep {
+			in[c] = true
+		}
+		for _, c := range order {
+			if !in[c] {
+				omittedList = append(omittedList, fmt.Sprintf("%s (%d runs, first plan %d)", c, byClass[c].count, idx(byClass[c].plan)))
+			}
+		}
+		omitted = len(omittedList)
+		fmt.Printf("%d further violation classes not expanded into replay files: %s\n", omitted, strings.Join(omittedList, "; "))
+		sort.Strings(keep)
+		order = keep
+	}
 	exit := 0
 	nViol := 0
 	var lines []string
